@@ -964,6 +964,7 @@ func init() {
 				schedRun("map-put-remove-b1", 1, mkrm("map"), 0), schedRun("doc-put-remove-b1", 1, mkrm("doc"), 0),
 				e2run("seq-map-2c-joined-d4", e2p{Clients: 2, Type: "map", Prefix: "joined", Alpha: "rich", Oracles: so}, 4, 0),
 				e2run("seq-doc-2c-joined-d3", e2p{Clients: 2, Type: "doc", Prefix: "joined", Oracles: so}, 3, 0),
+				e2run("seq-doc-2c-joined-reserved-member-names-d3", e2p{Clients: 2, Type: "doc", Prefix: "joined", Alpha: "reserved", Oracles: so}, 3, 0),
 				e2run("seq-list-2c-joined-d4", e2p{Clients: 2, Type: "list", Prefix: "joined", Alpha: "batch", Oracles: so}, 4, 0),
 				e2run("seq-counter-2c-entry-d5", e2p{Clients: 2, Type: "counter", Oracles: so}, 5, 0),
 				e2run("seq-counter-2c-log1100-d3", e2p{Clients: 2, Type: "counter", Prefix: "log1100", Modes: []string{"subscribe"}, Alpha: "one", Oracles: so}, 3, 0), // a log of 1100 operations: a late subscriber, then further pushes
